@@ -95,6 +95,9 @@ var registry = []*HarnessSpec{
 	{Prop: "C09", Name: "zzH09a", Pkg: pkgCorerad, Tier: "quick", Params: map[string]int{"k": 8, "k@thorough": 32}, Bounds: "0..k-1 consecutive messages with any hop limit != 255 followed by a valid one (k=8, thorough 32)"},
 	{Prop: "C10", Name: "zzH10c", Pkg: pkgCorerad, Tier: "quick", Bounds: "0..6 read timeouts followed by a message, a non-timeout net.Error or another error"},
 	{Prop: "C18", Name: "zzH18", Pkg: pkgCorerad, Tier: "quick", Params: map[string]int{"prefixes": 2, "prefixes@thorough": 4}, Bounds: "one message: RS/NS/NA or an RA with symbolic header, 0..2 (thorough 0..4) prefix options (all fields symbolic, whole-second lifetimes incl. 0 and 2^32-1 s) and an unknown option; receipt instant any wall-clock ns value; sender an opaque string"},
+	{Prop: "C18", Name: "zzH18label", Pkg: pkgCorerad, Tier: "quick", Bounds: "cidrStr / prefixStr / routeStr on 6 concrete prefixes, boolFloat"},
+	{Prop: "C17", Name: "zzH18label", Pkg: pkgCorerad, Tier: "quick", Bounds: "cidrStr / prefixStr / routeStr on 6 concrete prefixes, boolFloat"},
+	{Prop: "C12", Name: "zzH18label", Pkg: pkgCorerad, Tier: "quick", Bounds: "the details label of prefix and route inconsistencies: CIDR form on 6 concrete prefixes"},
 	{Prop: "C18", Name: "zzH18seq", Pkg: pkgCorerad, Tier: "quick", Bounds: "two messages through Monitor.monitor (real Listen and callback) from one link-local / global / unique-local sender with / without a zone: an RA followed by an RA / RS / NA; router and prefix lifetimes, flags symbolic"},
 	{Prop: "C12", Name: "zzH12wire", Pkg: pkgCorerad, Extra: []string{pkgConfig}, Tier: "quick", Bounds: "one accepted advertising interface with the stanzas of one kind at a time (header fields; static prefix; static route; RDNSS + DNSSL; MTU + captive portal + PREF64), all durations and header fields symbolic (real parser), forwarding on/off; ndp.MarshalMessage then ndp.ParseMessage through their real bodies"},
 	{Prop: "C12", Name: "zzH12wireDep", Pkg: pkgCorerad, Extra: []string{pkgConfig}, Tier: "quick", MonoTime: true, Bounds: "one deprecated prefix or one deprecated route, lifetimes symbolic (real parser), arbitrary epoch <= now (monotonic readings)"},
